@@ -1,0 +1,64 @@
+//go:build verif
+
+// Verification hooks: thin exported wrappers around unexported leaf functions and
+// read-only inspectors. Compiled only with -tags verif; no existing line is changed.
+
+package hessian
+
+import (
+	"reflect"
+	"time"
+)
+
+func VerifEncodeInt(v int32) []byte               { return encodeInt(v) }
+func VerifEncodeLong(v int64) []byte              { return encodeLong(v) }
+func VerifEncodeDouble(v float64) ([]byte, error) { return encodeDouble(v) }
+func VerifEncodeString(v string) []byte           { return encodeString(v) }
+func VerifEncodeBinary(v []byte) []byte           { return encodeBinary(v) }
+func VerifEncodeDate(v time.Time) []byte          { return encodeDate(v) }
+func VerifEncodeBoolean(v bool) []byte            { return encodeBoolean(v) }
+
+func VerifDecodeInt(r ByteRuneReader) (int32, error)      { return decodeInt(r) }
+func VerifDecodeLong(r ByteRuneReader) (int64, error)     { return decodeLong(r) }
+func VerifDecodeDouble(r ByteRuneReader) (float64, error) { return decodeDouble(r) }
+func VerifDecodeString(r ByteRuneReader) (string, error)  { return decodeString(r) }
+func VerifDecodeBinary(r ByteRuneReader) ([]byte, error)  { return decodeBinary(r) }
+func VerifDecodeDate(r ByteRuneReader) (time.Time, error) { return decodeDate(r) }
+
+func VerifLowerName(s string) string      { r, _ := lowerName(s); return r }
+func VerifCapitalizeName(s string) string { return capitalizeName(s) }
+func VerifFindField(name string, t reflect.Type) (int, error) {
+	return findField(name, t)
+}
+func VerifFormatArrayTypeName(s string) string { return formatArrayTypeName(s) }
+func VerifArrayRootElemName(s string) string   { return arrayRootElemName(s) }
+
+// VerifIsCarrier reports whether x is one of the decoder's internal carriers.
+func VerifIsCarrier(x interface{}) bool {
+	switch x.(type) {
+	case reflect.Value, *reflect.Value, *_refHolder, _refHolder:
+		return true
+	}
+	return false
+}
+
+func (e *Encoder) VerifTableSizes() (cls, refs int) { return len(e.clsDefList), len(e.refMap) }
+func (d *Decoder) VerifTableSizes() (typ, cls, refs int) {
+	return len(d.typList), len(d.clsDefList), len(d.refList)
+}
+
+// VerifPoolFill reports the number of cached objects and the capacity of a pool.
+func VerifPoolFill(p Pool) (n, capacity int) {
+	if op, ok := p.(*objectPool); ok {
+		return len(op.cached), cap(op.cached)
+	}
+	return -1, -1
+}
+
+// VerifSerializerParts exposes the encoder and decoder of a Serializer built by NewSerializer.
+func VerifSerializerParts(s Serializer) (*Encoder, *Decoder) {
+	if gh, ok := s.(*goHessian); ok {
+		return gh.encoder, gh.decoder
+	}
+	return nil, nil
+}
